@@ -223,14 +223,17 @@ where
 
             match stream.as_mut().poll_next(cx) {
                 // Received message from a client stream
-                Poll::Ready(Some((id, Ok(item)))) => {
-                    let mut payload = item.unwrap_message();
-                    payload
-                        .headers
-                        .get_or_insert(HashMap::new())
-                        .insert("cid".into(), format!("{id}"));
-                    *buffered_req = Some(Frame::Message(payload));
-                }
+                Poll::Ready(Some((id, Ok(item)))) => match item {
+                    Frame::Message(mut payload) => {
+                        payload
+                            .headers
+                            .get_or_insert(HashMap::new())
+                            .insert("cid".into(), format!("{id}"));
+                        *buffered_req = Some(Frame::Message(payload));
+                    }
+                    // Only messages are routed; any other frame kind is ignored
+                    _ => warn!("Ignoring unexpected frame from requestor {id}"),
+                },
                 // Encountered an error whilst receiving a message from an inner stream
                 Poll::Ready(Some((_, Err(e)))) => {
                     error!("Received invalid message from requestor: {e:?}")
